@@ -97,6 +97,18 @@ def instances(tier, rng):
             if M * K * N > 20000: continue
             if add(t, M, K, N, lt, rt):
                 k += 1
+        # dispatch classes of the interior-block kernels per vector width V (as in C01): the 3-column kernel needs N % 3V == 0,
+        # M % 3V == 0 and N > 24; K != N so that an operand stride confusion shows (round-4 seeded defect invisible on K == N)
+        k = 0
+        while k < (6 if tier == "quick" else 30):
+            V = rng.choice([1, 2, 4, 8])
+            N = 3 * V * rng.choice([x for x in range(1, 40) if 24 < 3 * V * x <= 60] or [9])
+            M = 3 * V * rng.choice([1, 2])
+            K = rng.choice([x for x in (5, 7, 9, 12, 17, 30, 32) if x != N])
+            lt, rt = rng.choice(PAIRS)
+            if M * K * N > 60000: continue
+            if add(t, M, K, N, lt, rt):
+                k += 1
     out = [k + (v,) for k, v in inst.items()]
     # expression-operand form: a small seeded sample of additional instances
     keys = sorted(inst)
@@ -117,7 +129,12 @@ def plan(tier, seed, rng):
                           dict(type=TYPES[t], M=M, K=K, N=N, lhs=TAGS[lt], rhs=TAGS[rt], form=f), size=M * K * N))
     units = []
     per = 130 if tier == "quick" else 200
-    for cfg in std_configs(tier, seed):
+    cfgs = list(std_configs(tier, seed))
+    # the kernels are parametrised by the vector width: width 1 (FASTOR_DONT_VECTORISE) is a size class of its own and always present
+    if not any(c.isa == "scalar" and c.opt == "-O2" for c in cfgs):
+        from vf.core import Config
+        cfgs.append(Config("scalar", "c++14", "-O2", True, "g++"))
+    for cfg in cfgs:
         for ch in chunks(cases, per):
             units.append(Unit("C17", cfg, ch, ["props/c17.h"], max_success=30 if tier == "quick" else 40))
     if tier == "thorough":
